@@ -154,7 +154,7 @@ class compile_order_by:
     callees = CALLEES
     opaque_ctors = {'EvalTarget': ['c_expr', 'name', 'is_aggregate']}
     hints = ['seq-pointwise']
-    timeout = 6000
+    timeout = 10000
     modifies = ['fields:c_expr', 'fields:name', 'fields:is_aggregate']
     native = False
     assumes = ['ATTRS_PRESENT', 'compiled nodes compare by ==; list.index finds the first equal element (merge soundness is C03 EvalNode.__eq__)']
@@ -297,7 +297,7 @@ class compile_group_by:
     callees = CALLEES
     opaque_ctors = {'EvalTarget': ['c_expr', 'name', 'is_aggregate']}
     hints = ['seq-pointwise']
-    timeout = 6000
+    timeout = 10000
     modifies = ['fields:c_expr', 'fields:name', 'fields:is_aggregate']
     native = False
     assumes = ['ATTRS_PRESENT', 'compiled nodes compare by ==; list.index finds the first equal element (merge soundness is C03 EvalNode.__eq__)']
